@@ -62,6 +62,14 @@ impl WriterBuilder {
         self
     }
 
+    /// Verification hook: sets the block size without the minimum clamp,
+    /// so that small inputs produce several blocks at every index level.
+    #[cfg(grenad_verif)]
+    pub fn verif_block_size_unclamped(&mut self, size: usize) -> &mut Self {
+        self.block_size = size;
+        self
+    }
+
     /// The interval at which we store the index of a key in the
     /// index footer, used to seek into a block.
     pub fn index_key_interval(&mut self, interval: NonZeroUsize) -> &mut Self {
